@@ -13,9 +13,10 @@ use std::io::{BufReader, Cursor, Write};
 use std::path::{Path, PathBuf};
 use std::process::Command;
 
+mod gcnodepth;
 mod gcnosafe;
 
-const KINDS: [&str; 6] = ["lcov", "jacoco", "gcovtext", "gcovjson", "gcno", "gcda"];
+const KINDS: [&str; 7] = ["lcov", "jacoco", "gcovtext", "gcovjson", "gcno", "gcda", "gcno2m"];
 
 #[derive(Clone)]
 struct Case {
@@ -64,6 +65,7 @@ fn outcome_of(c: &Case, tmp: &Path) -> String {
                 Err(p) => format!("panic {}", p),
             }
         }
+        "gcno2m" => gcnodepth::outcome_2m(c.data.clone(), c.aux.clone()),
         _ => "bad-kind".into(),
     }
 }
@@ -496,6 +498,7 @@ pub fn run(rep: &mut Report) {
     rep.count_n("gcda.truncations_checked_against_record_prefixes", checked);
     alloc_findings(rep);
     gcnosafe::run(rep);
+    gcnodepth::run(rep);
 }
 
 /// the two recorded allocation findings: a number in the input is an allocation size
